@@ -102,7 +102,29 @@ def check(rep, tier):
                                              "exit": rc, "stdout": o[-3000:], "stderr": e[-6000:]})
             rep.violation(path)
 
-    rtprops.correspondence(rep, "C14", cases, rule, extra=extra,
+    def extra2(work, exe, results):
+        extra(work, exe, results)
+        # (d) many recovered panics on one iterator must not affect another one
+        n = 300000
+        rc, o, e = C.run(["timeout", "300", exe, "-stress", str(n)], timeout=330)
+        rep.coverage["recovered_panics_before_healthy_run"] = n
+        if rc != 0:
+            path = rep.write_replay("panic_accumulation", {"what": "an iterator misbehaves after recovered panics of ANOTHER iterator",
+                                                           "how": "harness/cmd/rtdrive -stress %d" % n, "stdout": o[-2000:], "stderr": e[-2000:]})
+            rep.violation(path)
+        # (e) the range iterators of seq/iter.go consumed on 8 goroutines under the race detector
+        iexe = os.path.join(work, "iterdrive_race")
+        rc, o, e = C.run(["go", "build", "-race", "-tags", "verif", "-o", iexe, "./cmd/iterdrive"], cwd=C.HARNESS, timeout=900)
+        if rc != 0:
+            raise RuntimeError("cannot build iterdrive -race: " + (o + e)[-2000:])
+        rc, o, e = C.run(["timeout", "300", iexe, "-par"], timeout=330)
+        rep.coverage["range_iterators_race_exit"] = rc
+        if rc != 0:
+            path = rep.write_replay("iter_race", {"what": "fresh range iterators consumed on different goroutines race",
+                                                  "how": "go build -race ./cmd/iterdrive && iterdrive -par", "stderr": e[-6000:]})
+            rep.violation(path)
+
+    rtprops.correspondence(rep, "C14", cases, rule, extra=extra2,
                            what="interleaved generators on the real runtime disagree with independent reference generators")
     rep.assumptions.append("goroutine scheduling and the Go memory model are not modelled; parallel consumption is checked by the race detector on a sample only")
 
